@@ -26,6 +26,7 @@ type Event struct {
 type ReadInfo struct {
 	Renewed bool
 	Timeout bool
+	At      int64 // clock reading (unix nanoseconds) when the Read call started
 }
 
 type state struct {
@@ -68,7 +69,7 @@ func ReadLog(c *net.TCPConn) []ReadInfo { return cur.Log }
 func Read(c *net.TCPConn, p []byte) (int, error) {
 	s := cur
 	s.Reads++
-	s.Log = append(s.Log, ReadInfo{Renewed: s.renewed})
+	s.Log = append(s.Log, ReadInfo{Renewed: s.renewed, At: time.Now().UnixNano()})
 	s.renewed = false
 	if s.isDone {
 		return 0, ErrClosed
